@@ -137,7 +137,9 @@ class ThreadWorld(World):
         repodoc = {"info": {"subdir": "noarch"}, "packages": {"a-1.0-0.tar.bz2": {"name": "a", "version": "1.0", "depends": []},
                                                                 "b-2.0-1.tar.bz2": {"name": "b", "version": "2.0", "size": 5}},
                    "packages.conda": {"c-0.1-0.conda": {"name": "c", "version": "0.1"}}}
-        self.repodocs = {"noarch/repodata.json": repodoc,
+        self.repodocs = {"bad/repodata.json": dict(repodoc, **{"packages.conda": ["not", "a", "mapping"]}),
+                         "bad2/repodata.json": {"info": {}, "packages": {"a-1.0-0.tar.bz2": {"name": "a"}}, "packages.conda": None},
+                         "noarch/repodata.json": repodoc,
                          "linux-64/repodata.json": dict(repodoc, info={"subdir": "linux-64"},
                                                         packages={"z-9-0.tar.bz2": {"name": "z", "version": "9", "build": "h1"}})}
         unsorted = {"zeta": {"y": 1, "b": [3, {"q": 1, "a": 2}], "a": {"n": 0, "c": None}}, "alpha": [1, 2], "mid": {"z": "z", "k": "k", "a": "a"}}
@@ -147,7 +149,11 @@ class ThreadWorld(World):
         # a role file with very many authorised signers, nearly all of whose entries are junk (bounded caches overflow here)
         Ebig = copy.deepcopy(Ea)
         kbig = []
-        for j in range(rng.choice([130, 260, 520, 1030])):
+        sizes = [130, 260, 520, 1030]
+        hv = [c + 8 for c in gen.harvested(16, 3000, around=False)]
+        if hv and rng.random() < 0.6:
+            sizes = hv
+        for j in range(rng.choice(sizes)):
             hk = "%064x" % rng.getrandbits(256)
             kbig.append(hk)
             Ebig["signatures"][hk] = {"signature": "%0128x" % rng.getrandbits(512)}
@@ -187,6 +193,7 @@ class ThreadWorld(World):
             ("verify_signable", ("Ebig", "kbig", 2), {}), ("verify_signable", ("Ebig", "kbig", 3), {}), ("verify_signable", ("Ebig", "k01", 2), {}),
             ("sign_repo", ("noarch/repodata.json", 0), {}), ("sign_repo", ("linux-64/repodata.json", 0), {}),
             ("sign_repo", ("noarch/repodata.json", 1), {}), ("sign_repo", ("linux-64/repodata.json", 2), {}),
+            ("sign_repo", ("bad/repodata.json", 0), {}), ("sign_repo", ("bad2/repodata.json", 1), {}),
         ]
         self.catalogue = C
 
@@ -220,8 +227,13 @@ class ThreadWorld(World):
             if fn == "sign_repo":
                 # each caller signs its own file; files in different directories share a base name
                 path = "w%d/%s" % (me, args[0])       # every caller has its own tree; base names coincide
-                self.fs.put(path, refcanon(self.repodocs[args[0]]))
-                lib.signing.sign_all_in_repodata(path, self.keys.seeds[args[1]].hex())
+                before = refcanon(self.repodocs[args[0]])
+                self.fs.put(path, before)
+                try:
+                    lib.signing.sign_all_in_repodata(path, self.keys.seeds[args[1]].hex())
+                except Exception as e:  # noqa: BLE001
+                    # a signing that fails leaves its file as it was - whatever other callers are doing meanwhile
+                    return (type(e).__name__, self.fs.get(path) == before)          # any error class: the signer is no validator (C13 does not speak about it)
                 return ("return", self.fs.get(path))
             if fn == "sign_private":
                 # thread-private envelope around a *shared* payload object
